@@ -273,7 +273,7 @@ def gen_cases(tier, seed):
     rng = core.rng_for(seed, PROP, "build")
     f32 = single_ok if tier == "thorough" else [single_ok[int(k)] for k in rng.permutation(len(single_ok))[:8]]
     f128 = models if tier == "thorough" else [models[int(k)] for k in rng.permutation(len(models))[:8]]
-    for m in sorted(set(f32) | {"sphere", "cylinder"}):
+    for m in sorted(set(f32) | {"sphere", "cylinder", "hollow_cylinder", "core_shell_bicelle"}):
         cases.append({"id": "build32/" + m, "kind": "build", "model": m, "dtype": "float32", "seed": seed,
                       "group": "b-" + m, "cost": 2})
     for m in sorted(set(f128) | {"sphere", "cylinder"}):
@@ -350,6 +350,17 @@ def run_build(case, rec):
               None if ok else {"model": name, "dtype": d, "q": q, "double": I64, "other": Ix,
                                "max_rel_err": core.maxrel(Ix, I64, 1e-10*scale)},
               key="C15/float32-disagrees/%s" % name if d == "float32" else None)
+    # the mirrored q axis (the kernels accept negative q; a symmetric scan passes it): where the double kernel gives the
+    # same curve for -q as for q, the other precision does too
+    N64 = np.asarray(direct_model.call_kernel(m64.make_kernel([-q]), dict(pars)), float)
+    if np.all(np.isfinite(N64)) and core.close(N64, I64, 1e-9, 1e-12*scale):
+        Nx = np.asarray(direct_model.call_kernel(mx.make_kernel([-q]), dict(pars)), float)
+        okn = core.close(Nx, N64, 2e-3, 1e-5*scale + 1e-6) if d == "float32" else core.close(Nx, N64, 1e-4, 1e-6*scale)
+        rec.check("builds_and_agrees_with_double", okn,
+                  None if okn else {"model": name, "dtype": d, "case": "negative q", "q": -q, "double": N64, "other": Nx,
+                                    "max_rel_err": core.maxrel(Nx, N64, 1e-10*scale)},
+                  key="C15/float32-disagrees/%s" % name if d == "float32" else None)
+        rec.bucket("c:negative-q")
     # q exactly zero, and for oriented shapes q exactly perpendicular / parallel to the particle axis (arguments of
     # the special functions exactly zero): where the double kernel is defined, the other precision is too
     tol_r, tol_a = (2e-3, 1e-5) if d == "float32" else (1e-4, 1e-6)
@@ -377,6 +388,37 @@ def run_build(case, rec):
                                         "qx": qa_[0], "qy": qa_[1], "double": o64, "other": ox},
                       key="C15/float32-disagrees/%s" % name if d == "float32" else None)
             rec.bucket("c:q-exactly-on-particle-axes")
+    if d == "longdouble" and (i.parameters.orientation_parameters or i.parameters.nmagnetic > 0):
+        # where the double kernel is well conditioned (a detector image at q*size of order one, generic view angles, with
+        # and without a magnetised SLD) the long-double kernel agrees with it to the precision of a double: its constants
+        # and conversions are at least as accurate (the unchanged tree agrees to 1e-14 here for every oriented shape)
+        gp = dict(pars)
+        for a_ in i.parameters.orientation_parameters:
+            gp[a_.name] = 25.0
+        qg = np.array([0.3, 0.6, 1.0, 1.5])/s
+        qxy = [qg*0.8, qg*0.6]
+        variants = [("oriented 2-D", gp)] if i.parameters.orientation_parameters else []
+        slds_g = [p_.name for p_ in i.parameters.call_parameters if p_.type == "sld" and p_.name in sas.active_names(i, pars)]
+        if i.parameters.nmagnetic > 0 and slds_g:
+            variants.append(("magnetic 2-D", dict(gp, **{slds_g[0] + "_M0": 2.0, slds_g[0] + "_mtheta": 35.0, slds_g[0] + "_mphi": 60.0,
+                                                       "up_frac_i": 0.3, "up_frac_f": 0.7, "up_theta": 70.0, "up_phi": 20.0})))
+        # conditioning probe: models whose plain 1-D double evaluation already differs from long double at these q (sums of
+        # nearly cancelling terms) are left out
+        P64 = np.asarray(direct_model.call_kernel(m64.make_kernel([qg]), dict(pars)), float)
+        Px = np.asarray(direct_model.call_kernel(mx.make_kernel([qg]), dict(pars)), float)
+        if not (np.all(np.isfinite(P64)) and core.close(Px, P64, 1e-13, 1e-15*float(np.max(np.abs(P64 - bg))))):
+            variants = []
+            rec.count("long_double_probe_skipped_ill_conditioned")
+        for label, vp in variants:
+            G64 = np.asarray(direct_model.call_kernel(m64.make_kernel(qxy), dict(vp)), float)
+            Gx = np.asarray(direct_model.call_kernel(mx.make_kernel(qxy), dict(vp)), float)
+            if not np.all(np.isfinite(G64)):
+                continue
+            okg = core.close(Gx, G64, 1e-11, 1e-13*float(np.max(np.abs(G64 - bg))))
+            rec.check("long_double_at_least_double_accurate", okg,
+                      None if okg else {"model": name, "case": label + ", q*size of order one", "double": G64, "long_double": Gx,
+                                        "max_rel_err": core.maxrel(Gx, G64)}, key="C15/long-double-less-accurate-than-double")
+            rec.bucket("c:long-double-well-conditioned-" + label.split()[0])
     # the same with a size distribution and a non-zero weight cutoff (the cutoff is a real-valued argument of the
     # compiled kernel too); cutoffs are placed between two weight levels so that no point sits on the threshold
     cand = [p_ for p_ in sas.usable_pd(i, pars, "1d") if p_.type == "volume"]
